@@ -835,6 +835,9 @@ func init() {
 							if as, ok := n.(*ast.AssignStmt); ok && len(as.Rhs) == 1 && ast.Unparen(as.Rhs[0]) == h && len(as.Lhs) == nres {
 								errObj = lhsObj(info, as.Lhs[errIdx])
 							}
+							if vs, ok := n.(*ast.ValueSpec); ok && len(vs.Values) == 1 && ast.Unparen(vs.Values[0]) == h && len(vs.Names) == nres {
+								errObj = info.Defs[vs.Names[errIdx]] // var err error = handler(...)
+							}
 							if errObj == nil {
 								c.addAt(Violated, key, s.prog.nodePos(h), "the handler's error result is not bound to a variable (returned or dropped directly): it is never reported through api.TraceError, so error-based rules never see it")
 								continue
